@@ -5,5 +5,6 @@ CONSTANTS
   Kinds = {"in", "out", "inout"}
   Outcomes = {"ok", "app", "panic"}
   EarlyEnd = FALSE
+  WithDrop = FALSE
 INVARIANTS HandlerAfterCall OutcomeIsHandlers StreamPrefix EndAfterAll RpcInvariants
 CONSTRAINT Emit
